@@ -67,6 +67,8 @@ type schedCase struct {
 	// Barrier > 0: every shell command writes to a stdout that blocks until Barrier activations have
 	// entered (work-conservation probe: dependencies must all be started although only `cap` can run)
 	Barrier int `json:"barrier,omitempty"`
+	// Hang: a cycle through a deduplicated task — expected to deadlock (open finding); short time-out
+	Hang bool `json:"hang,omitempty"`
 }
 
 type gateWriter struct {
@@ -274,7 +276,7 @@ func runSchedImpl(d schedCase, dir string) schedObs {
 	select {
 	case err := <-done:
 		o.result = resTok(verifhook.ErrClass(err))
-	case <-time.After(45 * time.Second):
+	case <-time.After(map[bool]time.Duration{true: 3 * time.Second, false: 45 * time.Second}[d.Hang]):
 		o.hang = true
 		o.result = "hang"
 	}
@@ -639,6 +641,17 @@ func runSched(c *Ctx) {
 			if maxAlive(o.events) >= 2 || kinds["waiter"] || kinds["precondFail"] || kinds["promptFail"] || kinds["upToDate"] || o.result != "ok" {
 				c.Distinct(schedKey(d, o))
 			}
+			c.Emit(cl, il, d)
+		}
+	}
+	// cycles through a run: once / when_changed task: the reference waits for its own ancestor
+	if os.Getenv("VERIF_SCHED_HANG") == "1" {
+		for i := 0; i < c.Pick(2, 8); i++ {
+			d := c.genCycle(true)
+			d.Hang = true
+			cl, il, _ := evalSched(d)
+			c.Hit("stream:dedup-cycle")
+			c.Hit("result:" + il)
 			c.Emit(cl, il, d)
 		}
 	}
